@@ -177,7 +177,9 @@ func histString(h []op) string {
 // key universes
 func universe(r *hx.Rng) (keys [][]byte, style string) {
 	add := func(k []byte) { keys = append(keys, k) }
-	switch r.Intn(6) {
+	switch r.Intn(7) {
+	case 6:
+		return deepUniverse(r), "deep-shared"
 	case 0, 1: // 1..3-nibble alphabet, byte length 0..3
 		style = "nib-alphabet"
 		na := 1 + r.Intn(3)
@@ -236,6 +238,52 @@ func universe(r *hx.Rng) (keys [][]byte, style string) {
 	return
 }
 
+// keys of 64..300 bytes sharing prefixes of >= 128 bytes (branches whose parent sits >= 256 nibbles deep),
+// with later siblings inside the deep branch, at a shallower branch and outside the shared prefix
+func deepUniverse(r *hx.Rng) (keys [][]byte) {
+	L := []int{64, 127, 128, 129, 200, 300}[r.Intn(6)]
+	p := r.Bytes(L)
+	cp := func(b []byte, ext ...byte) []byte { return append(append([]byte{}, b...), ext...) }
+	keys = append(keys, cp(p, 0x10), cp(p, 0x2f), cp(p, 0x2f, 0x01), cp(p, 0xf0, 0x33))
+	if r.Bool() {
+		keys = append(keys, cp(p)) // value in the deep branch's 17th slot
+	}
+	half := cp(p[:L/2], p[L/2]^0x80, 0x07) // parts ways half way down
+	keys = append(keys, half, cp(p[:L-1], p[L-1]^0x01), []byte{0xff, 0xfe}, r.Bytes(32))
+	return
+}
+
+// overwrite classes for a value longer than 32 bytes: same length, differing only in the head, only in
+// the last 32 bytes, at the 32-byte boundary, in one byte, or in the whole head
+func mutateValue(r *hx.Rng, v []byte) []byte {
+	w := append([]byte{}, v...)
+	n := len(w)
+	flip := func(i int) { w[i] ^= byte(1 + r.Intn(255)) }
+	switch r.Intn(7) {
+	case 0:
+		flip(0)
+	case 1:
+		flip(n - 33)
+	case 2:
+		flip(n - 32)
+	case 3:
+		flip(n - 1)
+	case 4:
+		flip(r.Intn(n))
+	case 5:
+		for i := 0; i < n-32; i++ {
+			flip(i)
+		}
+	default:
+		for i := n - 32; i < n; i++ {
+			flip(i)
+		}
+	}
+	return w
+}
+
+var longLens = []int{33, 34, 40, 64, 65, 100, 150}
+
 var valLens = []int{1, 1, 1, 2, 5, 20, 27, 28, 29, 30, 31, 32, 33, 100} // 27..30: leaf encodings of 31..33 bytes (embed/hash boundary)
 
 func genValue(r *hx.Rng) []byte {
@@ -262,6 +310,16 @@ func genHistory(r *hx.Rng) ([]op, string) {
 		x := r.Intn(100)
 		switch {
 		case x < 48:
+			if r.Intn(6) == 0 { // a long value overwritten by a same-length value that differs in one class of positions
+				k, v := pick(), r.Bytes(longLens[r.Intn(len(longLens))])
+				h = append(h, op{Kind: "upd", K: k, V: v})
+				if roots < 3 && r.Intn(3) == 0 {
+					roots++
+					h = append(h, op{Kind: []string{"hash", "commit", "reopen-disk"}[r.Intn(3)]})
+				}
+				h = append(h, op{Kind: "upd", K: k, V: mutateValue(r, v)}, op{Kind: "get", K: k})
+				continue
+			}
 			h = append(h, op{Kind: "upd", K: pick(), V: genValue(r)})
 		case x < 64:
 			h = append(h, op{Kind: "del", K: pick()})
@@ -295,6 +353,9 @@ func genHistory(r *hx.Rng) ([]op, string) {
 				h = append(h, op{Kind: "deref"})
 			}
 		}
+	}
+	if style == "deep-shared" { // full listing and listings from seek positions inside / after the deep branch
+		h = append(h, op{Kind: "iter"}, op{Kind: "iter", K: pick()}, op{Kind: "iter", K: keys[0][:len(keys[0])/2]})
 	}
 	return h, style
 }
@@ -796,7 +857,7 @@ func main() {
 	a := hx.ParseArgs()
 	rng := hx.NewRng(a.Seed)
 	res := hx.NewResult("cases = operation histories (update / delete / get / hash / commit / flush-to-disk / reopen from disk or from the node cache / " +
-		"cache limit / iterate) over key universes with 1-3-nibble alphabets, prefix chains, long shared prefixes, 32-byte keys; values of length 0,1,2,5,20,27-33,100 and RLP-looking bytes; " +
+		"cache limit / iterate) over key universes with 1-3-nibble alphabets, prefix chains, long shared prefixes, 32-byte keys, keys of 64-300 bytes sharing prefixes of >= 128 bytes (iterated fully and from seek positions); values of length 0,1,2,5,20,27-33,100, long values (33-150 bytes) overwritten by same-length values differing in the head / at the 32-byte boundary / in the tail / in one byte and RLP-looking bytes; " +
 		"plus every history up to a fixed length over a 4-key universe {12, 1234, 1235, 22} x values {1 byte, 29 bytes, 33 bytes} x delete. " +
 		"non-trivial = distinct history during which the trie held at least two keys at once (so a branch node existed)")
 	perShard := 40 // every case costs the model several Keccak-256 evaluations (~0.1 s)
@@ -805,6 +866,7 @@ func main() {
 	}
 	cs := hx.NewCases(a.Out, "From V.C02 Require Import Model Harness.", "list hop", "check", perShard)
 	csB := hx.NewCasesNamed(a.Out, "b", "From V.C02 Require Import HarnessB.", "list hopB", "checkB", perShard)
+	nDeep := 0
 	nBcases, bEvery := 0, 2 // quick: every second eligible history also through the cache model
 	if a.Tier == "thorough" {
 		bEvery = 1
@@ -833,7 +895,19 @@ func main() {
 			return
 		}
 		if toModel {
-			if src, _ := modelCost(hops); src <= 3000*2 {
+			limit := 3000 * 2
+			for _, k := range uni {
+				if len(k) > 60 {
+					limit = 40000 // long keys (short values) are cheap for the model; only the source text is long
+				}
+			}
+			if limit > 3000*2 { // of the long-key histories every third goes through the models (the direct checks run on all)
+				nDeep++
+				if nDeep%3 != 1 {
+					limit = 0
+				}
+			}
+			if src, _ := modelCost(hops); src <= limit {
 				cs.Add(hx.CoqList(hops), map[string]interface{}{"history": id, "observed": jsn})
 				// layer B (cache model): histories that commit / reload / set a cache limit
 				if hopsB != nil && (rn.flags["commit"] || rn.flags["reload"] || rn.flags["limit"]) {
@@ -842,7 +916,7 @@ func main() {
 					}
 					nBcases++
 				}
-			} else {
+			} else if limit > 0 {
 				res.Histogram["model-skipped-too-large"]++
 			}
 		}
@@ -864,6 +938,22 @@ func main() {
 		{{Kind: "upd", K: S("\x12\x34"), V: bytes.Repeat([]byte{7}, 33)}, {Kind: "upd", K: S("\x12\x35"), V: bytes.Repeat([]byte{8}, 33)}, {Kind: "commit"}, {Kind: "commit"}, {Kind: "del", K: S("\x12\x35")}, {Kind: "commit"}, {Kind: "reopen-disk"}},
 		{{Kind: "upd", K: S("\x12\x34"), V: bytes.Repeat([]byte{7}, 33)}, {Kind: "upd", K: S("\x12\x35"), V: bytes.Repeat([]byte{8}, 33)}, {Kind: "upd", K: S("\x12\x45"), V: bytes.Repeat([]byte{9}, 33)}, {Kind: "flush"}, {Kind: "reopen-disk"}, {Kind: "del", K: S("\x12\x45")}, {Kind: "hash"}},
 		{{Kind: "limit", L: 1}, {Kind: "upd", K: S("\x01"), V: bytes.Repeat([]byte{1}, 40)}, {Kind: "upd", K: S("\x02"), V: bytes.Repeat([]byte{2}, 40)}, {Kind: "commit"}, {Kind: "commit"}, {Kind: "commit"}, {Kind: "upd", K: S("\x01"), V: nil}, {Kind: "commit"}},
+	}
+	{ // long-value overwrites (every position class) and deep shared prefixes, deterministic
+		v := bytes.Repeat([]byte{0xaa}, 40)
+		for _, pos := range []int{0, 7, 8, 39} {
+			w := append([]byte{}, v...)
+			w[pos] ^= 0x55
+			corpus = append(corpus, []op{{Kind: "upd", K: S("\x12\x34"), V: v}, {Kind: "upd", K: S("\x12\x35"), V: []byte{1}}, {Kind: "commit"},
+				{Kind: "upd", K: S("\x12\x34"), V: w}, {Kind: "get", K: S("\x12\x34")}, {Kind: "hash"}})
+		}
+		for _, L := range []int{127, 128, 129, 300} {
+			p := bytes.Repeat([]byte{0x5a}, L)
+			k := func(ext ...byte) []byte { return append(append([]byte{}, p...), ext...) }
+			corpus = append(corpus, []op{{Kind: "upd", K: k(0x10), V: []byte{1}}, {Kind: "upd", K: k(0x2f), V: []byte{2}}, {Kind: "upd", K: k(0x2f, 0x01), V: []byte{3}},
+				{Kind: "upd", K: k(0xf0, 0x33), V: []byte{4}}, {Kind: "upd", K: []byte{0xff, 0xfe}, V: []byte{5}}, {Kind: "upd", K: append(append([]byte{}, p[:L-1]...), 0x5b), V: []byte{6}},
+				{Kind: "iter"}, {Kind: "iter", K: k(0x2f)}, {Kind: "commit"}, {Kind: "iter", K: p[:L/2]}})
+		}
 	}
 	for _, h := range corpus {
 		var uni [][]byte
